@@ -768,6 +768,13 @@ def gen_cases(tier, needs_decl=frozenset(), with_dir_list=True):
                 continue
             su, nd = str_setup(cls, n)
             add(Case("id", "string", "%s x %d" % (STR_CLASSES[cls][0], n), "(strdup s)", "string", su, nd | {"strdup"}, n, n <= 300, orig="s"))
+    if thorough:     # every length around the 4 KiB result buffer and the 8 KiB request buffer, and all short ones
+        for n in sorted(set(range(0, 513)) | set(range(4000, 4200)) | set(range(8100, 8300))):
+            if n not in slens:
+                su, nd = str_setup(1, n)
+                add(Case("id", "string", "%s x %d" % (STR_CLASSES[1][0], n), "(strdup s)", "string", su, nd | {"strdup"}, n, n <= 300, orig="s"), ("once",))
+        for n in sorted(set(range(440, 470)) | set(range(895, 925))):
+            add(Case("id", "array<int>", "%d elements" % n, "(wmemcpy a 0 0)", "ai", ["let a: array<int> = (mkai %d)" % n], ("id_ai", "mkai"), 9 * n, False), ("once",))
     for n in (0, 1, 100, 2045, 2046, 2047, 4090, 4091, 4092, 40000):
         su, nd = str_setup(0, n)
         add(Case("id", "string-concat", "ascii x %d twice" % n, "(nl_cstr_concat s s)", "string", su, nd | {"cat"}, 2 * n, n <= 100))
